@@ -59,6 +59,30 @@ CHECKS = {
                      "sum(1-h) = dof; laws of SetSigmaApr and SetConfPr between runs.",
                 note="trusted: quantile table generated once with scipy (spec/data/quantiles_ref.json); a priori sigmas are those of the generated input; "
                      "observations in correlated clusters are excluded from the per-observation identities", ref="8/C09"),
+    "C02": dict(cat="exploration", technique="TLC-generated exact cases + TLC-generated sessions; pairwise SetAlgorithm law",
+                text="The four algorithms are compared pairwise on every LsqCases problem through both solver entry points (defect, x, residuals, "
+                     "sum of squares, every q_xx and q_bb), on levelling networks through gama-local, and in SurveySession sessions where the edit "
+                     "SetAlgorithm (law: nothing changes) is applied alone and mixed with other edits on noisy 1-D/2-D/3-D networks; the outcome class "
+                     "of ill-posed inputs is compared in C20.",
+                note="trusted: as C01/C07; conditioning-proportional tolerances are replaced by a well-conditioned universe with exactly known rank", ref="8/C02"),
+    "C08": dict(cat="exploration", technique="TLC-generated ChangeDatum sessions + exact null-space certificate at the API",
+                text="API: for every singular LsqCases problem and every admissible subset S the returned x satisfies G_S'x_S = 0 with TLC's exact integer "
+                     "null space (minimal norm over S). Network: ChangeDatum sessions on the free 2-D template (five constraint sets, all axes "
+                     "conventions, four algorithms): residuals, v'Pv, dof, adjusted observations and sigmas and all inter-point distances are equal; "
+                     "corrections of constrained points sum to zero and have zero moment when no azimuth fixes the rotation.",
+                note="orthogonality is asserted on the final re-linearised solution to 5e-6 m; 3-D free networks are not generated", ref="8/C08"),
+    "C13": dict(cat="exploration", technique="TLC-generated sessions ending in ExportReimport(n); abstract-survey equality + result equality",
+                text="Sessions of SurveySession.tla apply an edit that changes units, instrument heights, axes/angle sense, distance ends or ids and then "
+                     "ExportReimport with n = 1..3 rounds: each exported file is read back by an independent reader and must describe the same abstract "
+                     "survey (status of points, observations with values, sigmas, covariance matrices, heights, parameters); adjusting it must give the "
+                     "same result without linearisation iterations.",
+                note="trusted: ElementTree reader in tools/checks/c13.py; special characters in ids/descriptions belong to C12", ref="8/C13"),
+    "C20": dict(cat="exploration", technique="exact admissibility (TLC null space) at the API + TLC-generated ill-posed sessions x 4 algorithms",
+                text="API: problems whose regularisation subset does not resolve the defect (decided exactly by rank of the restricted integer null "
+                     "space) must be refused by every solver entry point; flagged dependent unknowns must be truly dependent (exact determinant test). "
+                     "Network: MakeFree(s) and Isolate edits of SurveySession.tla with the expected adjustability from the datum-defect table; outcome, "
+                     "removed points and results must be equal for the four algorithms, and no output may contain a non-finite number.",
+                note="several genuine defects are recorded as known findings (null_space() stripping); the datum-defect table covers the templates only", ref="8/C20"),
 }
 
 NOT_APPLICABLE = []
